@@ -150,3 +150,194 @@ Theorem truncation v b p : wf v = true -> Enc v b -> sprefix p b -> decode p = E
 Proof.
   intros Hwf H Hp. unfold decode. apply (proj1 truncation_mut v b H Hwf p); [exact Hp|lia].
 Qed.
+
+(* ------------------------------------------------------------------------------------------ *)
+(* decode consumes at least one byte, and never runs out of fuel (on any input whatsoever)     *)
+(* ------------------------------------------------------------------------------------------ *)
+
+Lemma rd_le n bs x r : rd n bs = Ok (x, r) -> (length r <= length bs)%nat.
+Proof. intros H. destruct (rd_ok _ _ _ _ H) as [-> _]. rewrite app_length. lia. Qed.
+
+Lemma rd_uint_le k bs u r : rd_uint k bs = Ok (u, r) -> (length r <= length bs)%nat.
+Proof. intros H. destruct (rd_uint_ok _ _ _ _ H) as (x & -> & _). rewrite app_length. lia. Qed.
+
+(* a result that is a value with a rest no longer than [n], or an error other than OutOfFuel *)
+Definition fine {A} (n : nat) (x : result (A * bytes)) : Prop :=
+  match x with
+  | Ok (_, r) => (length r <= n)%nat
+  | Err e => e <> OutOfFuel
+  end.
+
+Lemma fine_rd_uint k bs : fine (length bs) (rd_uint k bs).
+Proof.
+  destruct (rd_uint k bs) as [[u r]|e] eqn:E; simpl.
+  - eapply rd_uint_le; eassumption.
+  - rewrite (rd_uint_err _ _ _ E). discriminate.
+Qed.
+
+Lemma fine_rd n bs : fine (length bs) (rd n bs).
+Proof.
+  destruct (rd n bs) as [[u r]|e] eqn:E; simpl.
+  - eapply rd_le; eassumption.
+  - rewrite (rd_err _ _ _ E). discriminate.
+Qed.
+
+Lemma fine_mono {A} n m (x : result (A * bytes)) : fine n x -> (n <= m)%nat -> fine m x.
+Proof. destruct x as [[a r]|e]; simpl; intros; [lia|assumption]. Qed.
+
+Ltac fine_cases :=
+  repeat match goal with
+         | |- context [if ?b then _ else _] => destruct b
+         end;
+  try (simpl; lia); try (simpl; discriminate).
+
+Ltac fine_uint k r :=
+  let H := fresh "H" in
+  pose proof (fine_rd_uint k r) as H; destruct (rd_uint k r) as [[? ?]|?]; simpl in *; try assumption; try lia.
+
+Lemma fine_integer c r : fine (length r) (unpack_integer c r).
+Proof.
+  unfold unpack_integer.
+  repeat match goal with
+         | |- context [if ?b then _ else _] => destruct b
+         end;
+  try (simpl; lia); try (simpl; discriminate);
+  match goal with |- context [rd_uint ?k r] => fine_uint k r end.
+Qed.
+
+Lemma fine_float c r : fine (length r) (unpack_float c r).
+Proof.
+  unfold unpack_float.
+  repeat match goal with
+         | |- context [if ?b then _ else _] => destruct b
+         end;
+  try (simpl; discriminate);
+  match goal with |- context [rd_uint ?k r] => fine_uint k r end.
+Qed.
+
+Lemma fine_length (lenf : N -> bytes -> result (N * bytes)) c r :
+  lenf = string_length \/ lenf = binary_length \/ lenf = ext_length \/ lenf = array_length \/ lenf = map_length ->
+  fine (length r) (lenf c r).
+Proof.
+  intros [->|[->|[->|[->| ->]]]];
+  unfold string_length, binary_length, ext_length, array_length, map_length;
+  repeat match goal with
+         | |- context [if ?b then _ else _] => destruct b
+         end;
+  try (simpl; lia); try (simpl; discriminate); try apply fine_rd_uint.
+Qed.
+
+Lemma fine_string c r : fine (length r) (unpack_string c r).
+Proof.
+  unfold unpack_string.
+  pose proof (fine_length string_length c r (or_introl eq_refl)) as H.
+  destruct (string_length c r) as [[n r1]|e]; simpl in H; [|exact H].
+  pose proof (fine_rd n r1) as H1. destruct (rd n r1) as [[s r2]|e]; simpl in H1; [|exact H1].
+  destruct (utf8_valid s); simpl; [lia|discriminate].
+Qed.
+
+Lemma fine_binary c r : fine (length r) (unpack_binary c r).
+Proof.
+  unfold unpack_binary.
+  pose proof (fine_length binary_length c r (or_intror (or_introl eq_refl))) as H.
+  destruct (binary_length c r) as [[n r1]|e]; simpl in H; [|exact H].
+  pose proof (fine_rd n r1) as H1. destruct (rd n r1) as [[s r2]|e]; simpl in H1; [|exact H1].
+  simpl. lia.
+Qed.
+
+Lemma fine_ext c r : fine (length r) (unpack_ext c r).
+Proof.
+  unfold unpack_ext.
+  pose proof (fine_length ext_length c r (or_intror (or_intror (or_introl eq_refl)))) as H.
+  destruct (ext_length c r) as [[n r1]|e]; simpl in H; [|exact H].
+  pose proof (fine_rd_uint 1 r1) as H1. destruct (rd_uint 1 r1) as [[ty r2]|e]; simpl in H1; [|exact H1].
+  pose proof (fine_rd n r2) as H2. destruct (rd n r2) as [[s r3]|e]; simpl in H2; [|exact H2].
+  destruct (ty <=? 127); simpl; [lia|discriminate].
+Qed.
+
+(* [d] behaves on every input not longer than m: no OutOfFuel, and a success consumes a byte *)
+Definition good (d : bytes -> result (value * bytes)) (m : nat) : Prop :=
+  forall bs, (length bs <= m)%nat ->
+    match d bs with
+    | Ok (_, r) => (length r < length bs)%nat
+    | Err e => e <> OutOfFuel
+    end.
+
+Lemma fine_items d m : good d m -> forall j n bs, (length bs <= m)%nat -> (length bs < j)%nat ->
+  fine (length bs) (items d j n bs).
+Proof.
+  intros Hd. induction j as [|j IH]; intros n bs Hm Hj; [inversion Hj|].
+  destruct (N.eq_dec n 0) as [->|Hn]; [rewrite items_0; simpl; lia|].
+  rewrite items_S by exact Hn.
+  pose proof (Hd bs Hm) as H. destruct (d bs) as [[v r]|e]; [|exact H].
+  assert (Hr : (length r <= m)%nat) by lia.
+  assert (Hrj : (length r < j)%nat) by lia.
+  pose proof (IH (N.pred n) r Hr Hrj) as H1.
+  destruct (items d j (N.pred n) r) as [[l r']|e]; simpl in *; [lia|exact H1].
+Qed.
+
+Lemma fine_pairs d m : good d m -> forall j n acc bs, (length bs <= m)%nat -> (length bs < j)%nat ->
+  fine (length bs) (pairs d j n acc bs).
+Proof.
+  intros Hd. induction j as [|j IH]; intros n acc bs Hm Hj; [inversion Hj|].
+  destruct (N.eq_dec n 0) as [->|Hn]; [rewrite pairs_0; simpl; lia|].
+  rewrite pairs_S by exact Hn.
+  pose proof (Hd bs Hm) as H. destruct (d bs) as [[k r]|e]; [|exact H].
+  destruct (key_check k acc) as [e|] eqn:Ek.
+  { simpl. unfold key_check in Ek. destruct (is_arr k); [discriminate|].
+    destruct (negb (hashable k)); [injection Ek as <-; discriminate|].
+    destruct (key_in k acc); [injection Ek as <-; discriminate|discriminate]. }
+  assert (Hr : (length r <= m)%nat) by lia.
+  pose proof (Hd r Hr) as H0. destruct (d r) as [[v r']|e]; [|exact H0].
+  destruct (hashable k); [|simpl; discriminate].
+  assert (Hr' : (length r' <= m)%nat) by lia.
+  assert (Hrj : (length r' < j)%nat) by lia.
+  pose proof (IH (N.pred n) (dict_set acc k v) r' Hr' Hrj) as H1.
+  destruct (pairs d j (N.pred n) (dict_set acc k v) r') as [[l r'']|e]; simpl in *; [lia|exact H1].
+Qed.
+
+Lemma dec_good : forall f, good (dec (S f)) f.
+Proof.
+  induction f as [|f IH]; intros bs Hbs.
+  - destruct bs; [|inversion Hbs]. rewrite dec_nil. discriminate.
+  - destruct bs as [|c r]; [rewrite dec_nil; discriminate|].
+    rewrite dec_S. simpl length in *.
+    assert (Hfine : fine (length r) (dec_step (dec (S f)) (S f) c r)).
+    { unfold dec_step. destruct (dispatch c).
+      - apply fine_integer.
+      - pose proof (fine_length map_length c r (or_intror (or_intror (or_intror (or_intror eq_refl))))) as H.
+        destruct (map_length c r) as [[n r1]|e]; simpl in H; [|exact H].
+        assert (Hg : good (dec (S f)) (length r1)).
+        { intros bs' Hbs'. apply IH. lia. }
+        assert (Hlt : (length r1 < S f)%nat) by lia.
+        pose proof (fine_pairs _ _ Hg (S f) n [] r1 (le_n _) Hlt) as H1.
+        destruct (pairs (dec (S f)) (S f) n [] r1) as [[l r2]|e]; simpl in *; [lia|exact H1].
+      - pose proof (fine_length array_length c r (or_intror (or_intror (or_intror (or_introl eq_refl))))) as H.
+        destruct (array_length c r) as [[n r1]|e]; simpl in H; [|exact H].
+        assert (Hg : good (dec (S f)) (length r1)).
+        { intros bs' Hbs'. apply IH. lia. }
+        assert (Hlt : (length r1 < S f)%nat) by lia.
+        pose proof (fine_items _ _ Hg (S f) n r1 (le_n _) Hlt) as H1.
+        destruct (items (dec (S f)) (S f) n r1) as [[l r2]|e]; simpl in *; [lia|exact H1].
+      - apply fine_string.
+      - destruct (c =? 192); simpl; [lia|discriminate].
+      - destruct (c =? 193); simpl; discriminate.
+      - destruct (c =? 194); [simpl; lia|]. destruct (c =? 195); simpl; [lia|discriminate].
+      - apply fine_binary.
+      - apply fine_ext.
+      - apply fine_float. }
+    destruct (dec_step (dec (S f)) (S f) c r) as [[v r']|e]; simpl in Hfine; [lia|exact Hfine].
+Qed.
+
+Theorem decode_never_out_of_fuel bs : decode bs <> Err OutOfFuel.
+Proof.
+  unfold decode. pose proof (dec_good (length bs) bs (le_n _)) as H.
+  destruct (dec (S (length bs)) bs) as [[v r]|e]; [discriminate|].
+  intros E. injection E as ->. apply H. reflexivity.
+Qed.
+
+Theorem decode_consumes bs v r : decode bs = Ok (v, r) -> (length r < length bs)%nat.
+Proof.
+  unfold decode. intros E. pose proof (dec_good (length bs) bs (le_n _)) as H.
+  rewrite E in H. exact H.
+Qed.
